@@ -183,6 +183,10 @@ pub fn run_case(case: &J, modules: &HashMap<PathBuf, String>, outdir: &Path) -> 
         crate::runner::lsp_case(case, modules, &main, &mut obs);
         return J::Object(obs);
     }
+    if mode == "ledger" {
+        crate::ledger::ledger_case(case, modules, &main, &mut obs);
+        return J::Object(obs);
+    }
 
     // ---- check ----
     if mode == "check" || mode == "both" || case.get("check").and_then(|c| c.as_bool()) == Some(true) {
@@ -203,6 +207,7 @@ pub fn run_case(case: &J, modules: &HashMap<PathBuf, String>, outdir: &Path) -> 
             Err(e) => {
                 obs.insert("check".into(), json!("panic"));
                 obs.insert("check_panic".into(), json!(panic_msg(e)));
+                obs.insert("check_panic_loc".into(), json!(crate::take_panic_loc()));
             }
         }
         if mode == "check" {
@@ -225,6 +230,7 @@ pub fn run_case(case: &J, modules: &HashMap<PathBuf, String>, outdir: &Path) -> 
         Err(e) => {
             obs.insert("compile".into(), json!("panic"));
             obs.insert("panic".into(), json!(panic_msg(e)));
+            obs.insert("panic_loc".into(), json!(crate::take_panic_loc()));
             return J::Object(obs);
         }
         Ok(Err(e)) => {
@@ -513,6 +519,7 @@ pub fn lsp_case(case: &J, modules: &HashMap<PathBuf, String>, main: &str, obs: &
         }
         let mut answers = vec![];
         let mut nq = 0u64;
+        let mut qpanics: Vec<J> = vec![];
         if let Some(fid) = fid {
             let offsets: Vec<usize> = match case.get("offsets") {
                 Some(J::String(s)) if s == "all" => (0..=src.len()).filter(|&o| src.is_char_boundary(o)).collect(),
@@ -520,6 +527,25 @@ pub fn lsp_case(case: &J, modules: &HashMap<PathBuf, String>, main: &str, obs: &
                 _ => vec![],
             };
             let want = case.get("answers").and_then(|a| a.as_bool()).unwrap_or(false);
+            // "perquery": every query under its own catch_unwind; panics are listed in obs.qpanics
+            // as {off, q: def|type|compl, msg, loc} and the remaining queries still run
+            if case.get("perquery").and_then(|a| a.as_bool()).unwrap_or(false) {
+                for o in offsets {
+                    for q in ["def", "type", "compl"] {
+                        nq += 1;
+                        let r = catch_unwind(AssertUnwindSafe(|| match q {
+                            "def" => { let _ = res.definition_at(fid, o); }
+                            "type" => { let _ = res.type_at(fid, o); }
+                            _ => { let _ = res.completions_at(fid, o); }
+                        }));
+                        if let Err(e) = r {
+                            qpanics.push(json!({"off": o, "q": q, "msg": panic_msg(e), "loc": crate::take_panic_loc()}));
+                        }
+                    }
+                }
+                std::mem::forget(res);
+                return (diags, answers, nq, qpanics);
+            }
             for o in offsets {
                 let d = res.definition_at(fid, o);
                 let t = res.type_at(fid, o);
@@ -533,11 +559,14 @@ pub fn lsp_case(case: &J, modules: &HashMap<PathBuf, String>, main: &str, obs: &
             }
         }
         std::mem::forget(res);
-        (diags, answers, nq)
+        (diags, answers, nq, qpanics)
     }));
     match r {
-        Ok((d, a, nq)) => {
-            obs.insert("lsp".into(), json!("ok"));
+        Ok((d, a, nq, qp)) => {
+            obs.insert("lsp".into(), json!(if qp.is_empty() { "ok" } else { "panic" }));
+            if !qp.is_empty() {
+                obs.insert("qpanics".into(), J::Array(qp));
+            }
             obs.insert("diags".into(), J::Array(d));
             obs.insert("answers".into(), J::Array(a));
             obs.insert("queries".into(), json!(nq));
@@ -545,6 +574,7 @@ pub fn lsp_case(case: &J, modules: &HashMap<PathBuf, String>, main: &str, obs: &
         Err(e) => {
             obs.insert("lsp".into(), json!("panic"));
             obs.insert("panic".into(), json!(panic_msg(e)));
+            obs.insert("panic_loc".into(), json!(crate::take_panic_loc()));
         }
     }
 }
